@@ -501,3 +501,5 @@ V("seed-face-area-shortcut", "fault", "C02", P + "polyhedron.py",
 V("seed-core-cache", "fault", "C03", P + "convex_spheropolyhedron.py",
   "    @property\n    def mean_curvature(self):", "    @__import__('functools').cached_property\n    def _core_curvature(self):\n        return self.polyhedron.mean_curvature\n\n    @property\n    def mean_curvature(self):", rule="COH-5")
 V("seed-rw-face-area-float", "rewrite", "C02", P + "polyhedron.py", "            areas[i] = poly.area", "            areas[i] = float(poly.area)")
+V("c04-align-inverse", "fault", "C04", P + "polygon.py", "    return np.dot(points, rotation.T), rotation", "    return np.dot(points, rotation), rotation", rule="FRAME-0")
+V("c04-align-returns-transpose", "fault", "C04", P + "polygon.py", "    return np.dot(points, rotation.T), rotation", "    return np.dot(points, rotation.T), rotation.T", rule="FRAME")
